@@ -46,8 +46,9 @@ ASSUMPTIONS = ['numpy.einsum on the namespace values is the reference meaning of
                'exceptions raised outside the expression modules (nutils.function refusing an argument) are counted, not judged',
                'v1 corruptions are classified only by lexical rules (unbalanced brackets, unknown symbols); everything else in v1 is '
                'unclassified (substitutions, ?argument shape inference, omitted indices)']
-BUDGET_S = {'quick': 80, 'thorough': 1300}
-NCASES = {'quick': 600, 'thorough': 15000}
+import os
+BUDGET_S = {'quick': int(os.environ.get('C19_BUDGET_QUICK', 85)), 'thorough': int(os.environ.get('C19_BUDGET_THOROUGH', 1300))}
+NCASES = {'quick': 510, 'thorough': 9000}
 NBASE = 4
 NCORR = {'quick': 24, 'thorough': 40}
 NMUT = {'quick': 8, 'thorough': 12}
@@ -273,9 +274,9 @@ def case_config(seed, index):
     version = 1 if index % V1_EVERY == V1_EVERY - 1 else 2
     r = rng.random()
     if version == 2:
-        mode = None if r < .68 else 'interior' if r < .82 else 'boundary' if r < .90 else 'interfaces'
+        mode = None if r < .76 else 'interior' if r < .86 else 'boundary' if r < .92 else 'interfaces'
     else:
-        mode = None if r < .6 else 'interior' if r < .85 else 'boundary'
+        mode = None if r < .64 else 'interior' if r < .84 else 'boundary'
     return rng, version, mode
 
 
@@ -293,7 +294,9 @@ def run_case(seed, index, tier, res, only=None):
             base_v2(R, brng, tier, res, pend, dict(base, k=k), only)
         else:
             v1.base_v1(R, brng, tier, res, pend, dict(base, k=k), only, HOOKS)
-        pend.flush()
+        if len(pend.items) > 60:
+            pend.flush()
+    pend.flush()
     return R
 
 
@@ -322,6 +325,11 @@ def base_v2(R, rng, tier, res, pend, case0, only):
         if normalise(ptree) != normalise(tree):
             raise AssertionError('recogniser parse differs from generating tree: {} vs {}'.format(ptree, tree))
         ref, out, dom = core.reference(tree, R)
+    except core.Unclassified as e:
+        # the generated tree left the modelled domain (e.g. integer ^ negative integer, which numpy refuses): not used
+        res.count('generator-discards')
+        res.count('v2/generator-discards-unmodelled')
+        return
     except Exception as e:
         res.count('harness-selfcheck-failures')
         res.note('self-check failed for {!r}: {}: {}'.format(s, type(e).__name__, str(e)[:300]))
@@ -365,8 +373,31 @@ def base_v2(R, rng, tier, res, pend, case0, only):
             continue
         seen.add(c)
         check_string_v2(R, c, rng, res, pend, dict(case0, string=c, kind='tree-edit', edit='tree-edit', what=m[1], base=s))
+    # an index that is already summed inside the expression is used once more outside: documented as invalid
+    for c in summed_reuse(tree, summed, G, R, rng):
+        if c not in seen:
+            seen.add(c)
+            check_string_v2(R, c, rng, res, pend, dict(case0, string=c, kind='summed-index-reused', edit='summed-index-reused', base=s))
     for c, ckind in corrupt(s, rng, NCORR[tier], R):
         check_string_v2(R, c, rng, res, pend, dict(case0, string=c, kind='corruption', edit=ckind, base=s))
+
+
+def summed_reuse_trees(tree, summed, G, R, rng, limit=2):
+    out = []
+    letters = sorted(summed)
+    for i in rng.permutation(len(letters))[:limit]:
+        ch = letters[int(i)]
+        n = G.len.get(ch)
+        names = [name for name in R.leaf if tuple(R.shape(name)) == (n,)]
+        if not names:
+            continue
+        name = names[int(rng.integers(len(names)))]
+        out.append(['prod', [['scope', '(', tree], ['var', name, ch]]])
+    return out
+
+
+def summed_reuse(tree, summed, G, R, rng):
+    return [gen.render(t) for t in summed_reuse_trees(tree, summed, G, R, rng)]
 
 
 def index_sample(case0):
@@ -410,8 +441,9 @@ def check_string_v2(R, c, rng, res, pend, case):
         if cls[0] == 'valid':
             res.violation('valid string rejected', case, '{!r} is valid by the documented grammar ({}-d, indices {!r}) but nutils raised: {}'.format(c, cls[1].ndim - 1, cls[2], o[2]))
         elif cls[0] == 'invalid' and o[1] == 'attribute-error':
-            # the assignment side may complain first only if the attribute indices are themselves wrong; they are not for '' / subsets
-            res.count('v2/invalid-rejected-by-attribute-check')
+            # the attribute indices offered here are unique lower case letters, so this AttributeError comes from the comparison
+            # of the attribute indices with the indices of the *successfully parsed* expression
+            res.violation('invalid string silently parsed', case, '{!r} violates a documented rule ({}) but the parser accepted it; the assignment then failed with: {}'.format(c, cls[1], o[2]))
         return
     arr = o[1]
     if cls[0] == 'invalid':
@@ -428,7 +460,7 @@ def check_string_v2(R, c, rng, res, pend, case):
         pend.add(arr, ref, dom, case, '{!r} ({})'.format(c, mode))
 
 
-HOOKS = dict(run_nutils=run_nutils, corrupt=corrupt, judge_exception=judge_exception, sha=sha, index_sample=index_sample,
+HOOKS = dict(summed_reuse_trees=summed_reuse_trees, run_nutils=run_nutils, corrupt=corrupt, judge_exception=judge_exception, sha=sha, index_sample=index_sample,
              in_expression_module=in_expression_module, where=where, NCORR=NCORR, ATTR=ATTR)
 
 
